@@ -259,6 +259,66 @@ Fixpoint copy_all (fs : fsys) (cur : list dirent) (ck : list dirent) : fsys * li
 Definition restore_plan (fs : fsys) (cur ck : list dirent) : fsys * list dirent * bool :=
   copy_all fs (filter (keep_entry fs ck) cur) ck.
 
+(* ---------- fetching a checkpoint from a peer on the same host ----------
+   node/state_machine.go handleReuseOldCheckpoint: the sst files of the latest checkpoint fetched from
+   the same source are hard-linked into the new checkpoint directory; common.RunFileSync (local
+   branch): the destination checkpoint directory is removed, then cp -rp copies every file.
+   cp on an existing destination file opens it and rewrites it in place (cp_file with the Some branch):
+   that is what happened to the reused links before the removal was added (/repo 3dfe70c). *)
+
+Definition cp_file (st : fsys * list dirent) (f : bytes * fmeta) : fsys * list dirent :=
+  let '(fs, dst) := st in
+  let '(n, m) := f in
+  match dir_lookup dst n with
+  | Some i => ({| fs_inodes := (i, m) :: fs_inodes fs; fs_next := fs_next fs |}, dst)     (* rewritten in place *)
+  | None => let i' := fs_next fs in
+            ({| fs_inodes := (i', m) :: fs_inodes fs; fs_next := i' + 1 |}, dir_insert dst (n, i'))
+  end.
+
+Definition reuse_links (old_ck : list dirent) : list dirent := filter (fun e => is_sst (fst e)) old_ck.
+
+(* the code as it is: reuse, RemoveAll(destination), cp *)
+Definition fetch_local (fs : fsys) (old_ck : list dirent) (src : list (bytes * fmeta)) : fsys * list dirent :=
+  fold_left cp_file src (fs, []).
+(* the code before 3dfe70c: reuse, cp onto the links *)
+Definition fetch_local_inplace (fs : fsys) (old_ck : list dirent) (src : list (bytes * fmeta)) : fsys * list dirent :=
+  fold_left cp_file src (fs, reuse_links old_ck).
+
+(* ---------- the order of steps inside one backup ----------
+   Backup sends the request to backupLoop and the caller (the raft apply loop, through
+   kvStoreSM.GetSnapshot) blocks in BackupInfo.WaitReady until the engine's Save closes the
+   "started" channel. Inside KVCheckpoint.Save two things happen: the engine CAPTURES the view that
+   the checkpoint will hold, and it RELEASES the waiter; the apply loop applies the next entries only
+   after the release. The engines, as the code is:
+     mem      GetIterator + SeekToFirst (capture: an immutable-radix snapshot / a read lock), close(notify), dump
+     pebble   eng.Checkpoint(path) (capture AND copy: the live WAL is copied whole at the end), close(notify)
+     rocksdb  time.AfterFunc(20ms, close(notify)) then ck.Save: the file list and the WAL length are
+              fixed at the start of Save; capture-before-release holds as long as that takes < 20 ms
+   bstep is one event of a backup in flight; BWrite is the apply loop applying an entry. *)
+
+Inductive bstep := BCapture | BRelease | BWrite (h : N).
+Record bstate := { b_val : N; b_released : bool; b_view : option N }.
+
+Definition bstep_run (s : bstate) (e : bstep) : option bstate :=
+  match e with
+  | BCapture => Some {| b_val := b_val s; b_released := b_released s; b_view := Some (b_val s) |}
+  | BRelease => Some {| b_val := b_val s; b_released := true; b_view := b_view s |}
+  | BWrite h => if b_released s then Some {| b_val := h; b_released := true; b_view := b_view s |}
+                else None                         (* impossible: the apply loop is blocked in WaitReady *)
+  end.
+
+Fixpoint bsched_run (s : bstate) (l : list bstep) : option bstate :=
+  match l with
+  | [] => Some s
+  | e :: r => match bstep_run s e with Some s' => bsched_run s' r | None => None end
+  end.
+
+Definition bstart (h : N) : bstate := {| b_val := h; b_released := false; b_view := None |}.
+
+(* the engine's own events of a schedule, in order *)
+Definition engine_events (l : list bstep) : list bstep :=
+  filter (fun e => match e with BWrite _ => false | _ => true end) l.
+
 (* ---------- the value level ---------- *)
 
 Record ckinfo := { ck_val : N; ck_dg : N }.
